@@ -31,3 +31,13 @@ Proof. reflexivity. Qed.
 Example c18_ex : fb_read MGet (DStr [107]) [Ok DNone; Ok (DInt 0); Ok (DInt 5)]
                = (Ok (DInt 0), [(0%nat, MGet, [DStr [107]]); (1%nat, MGet, [DStr [107]])]).
 Proof. reflexivity. Qed.
+
+(* the model above is stateless: each call is a function of the caches' answers alone.  That is the code's own shape - the only
+   attribute of self that FallbackClient ever stores to or mutates, in any method, is `caches` in the constructor (every store,
+   deletion, setattr / __dict__ use and mutating method call on an attribute of self, read from fallback.py on every run) - so no
+   call can depend on an earlier one (what a read returned, or from which cache, cannot steer a later write) *)
+From Coq Require Import String.
+From PM Require Import Gen.Fallback.
+Theorem c18_stateless : fallback_stores = [("__init__", "caches")]%string.
+Proof. reflexivity. Qed.
+Print Assumptions c18_stateless.
